@@ -696,9 +696,12 @@ RE_C09X = _re.compile(r"EDNS options read through the object")
 RE_C08 = _re.compile(r"(the bytes are no longer acceptable|no longer acceptable|section offsets|offset of the EDNS|EDNS option count|EDNS version|the object says|the cached question|fresh parse|re-parsing|no longer designates|not a tombstone|does not yield the record that follows|reader|declared the bytes pointer-free|question getters|question\(\)|question_raw|cursor script did not complete)")
 
 
-def classify(why):
+def classify(why, res="ok"):
     if why.startswith("panic"):
         return {"C08", "C09", "C10"}
+    if res == "err" and RE_C08.search(why) and not RE_C10.search(why):
+        # after a *failed* operation the object must still satisfy C08: that clause belongs to C10 as well
+        return {"C08", "C10"}
     if RE_C09X.search(why):
         return {"C09"}
     if RE_C10.search(why):
@@ -747,8 +750,10 @@ def history_run(run, pid):
             facts["failed:" + kind] += 1
     mine = {}
     for ln, (t, why) in bad.items():
-        if pid == "HIST" or pid in classify(str(why)):
-            mine[ln] = ("[%s] " % "+".join(sorted(classify(str(why)))) + str(why)) if pid == "HIST" else why
+        res = "err" if '"res":"err"' in events[ln - 1][events[ln - 1].find('"o":'):events[ln - 1].find('"post":')] else "ok"
+        cl = classify(str(why), res)
+        if pid == "HIST" or pid in cl:
+            mine[ln] = ("[%s] " % "+".join(sorted(cl)) + str(why)) if pid == "HIST" else why
     judged = len(events) - facts.get("state:skipped", 0)
     run.cov["evaluations"] += judged
     run.cov["histories"] = len(scen)
@@ -1162,7 +1167,12 @@ def c17(run):
     run.cov["samples"] = [vlib.shorten(o, 500) for o in vlib.sample(obs, 2)]
     for ln, (t, why) in sorted(bad.items()):
         sc = json.loads(scen[ln - 1])
-        run.violation("purity|" + _re.sub(r"\d+", "N", str(why))[:120], why, {"do": "purity", "threads": sc["threads"], "calls": [[c["f"], c["x"]] for c in sc["calls"]]})
+        if sc["threads"] == 1 and ln >= 2:
+            prev = json.loads(scen[ln - 2])
+            if prev["threads"] == 1:
+                # results may depend on what the same driver thread processed just before
+                sc = dict(sc, calls=prev["calls"] + sc["calls"])
+        run.violation("purity|" + _re.sub(r"\d+", "N", str(why))[:120], why, sc)
 
 
 # ------------------------------------------------------------------------------------------------
@@ -1272,4 +1282,93 @@ def selftest():
         return 2
     shutil.rmtree(wd, ignore_errors=True)
     print("selftest ok")
+    return 0
+
+
+# ------------------------------------------------------------------------------------------------
+# --replay: re-run one stored scenario through the driver and TLC
+
+REPLAY_SPECS = {
+    "parse": ("Trace_Parse", "Trace_Parse_%s.cfg"), "name": ("Trace_Parse", "Trace_Parse_%s.cfg"), "prims": ("Trace_Parse", "Trace_Parse_%s.cfg"),
+    "read": ("Trace_Read", "Trace_Read_%s.cfg"),
+    "uncompress": ("Trace_Transform", "Trace_Transform_%s.cfg"), "compress": ("Trace_Transform", "Trace_Transform_%s.cfg"),
+    "rename": ("Trace_Transform", "Trace_Transform_%s.cfg"), "rename_menu": ("Trace_Transform", "Trace_Transform_%s.cfg"),
+    "hdr": ("Trace_Header", "Trace_Header_%s.cfg"), "decomp": ("Trace_Header", "Trace_Header_%s.cfg"),
+    "nametext": ("Trace_Names", "Trace_Names_%s.cfg"), "synth": ("Trace_Synth", "Trace_Synth_%s.cfg"),
+    "walk": ("Trace_Walk", "Trace_Walk_%s.cfg"), "threads": ("Trace_Slots", "Trace_Slots_%s.cfg"),
+}
+
+
+def replay(pid, path):
+    with open(path) as f:
+        rp = json.load(f)
+    sc = rp.get("scenario", {})
+    run = vlib.Run(pid, "quick")
+    print("replaying %s: %s" % (rp.get("signature", "?")[:100], vlib.shorten(rp.get("what", ""), 200)))
+    if sc.get("kind") == "design":
+        res, _ = vlib.mc(sc["module"], sc["cfg"], run.wd)
+        bad = bool(res["violated"])
+    elif "script" in sc:          # C15
+        if build_cdrive():
+            bad = True
+        else:
+            nat = vlib.drive_groups([json.dumps({"do": "cscript", "lines": sc["script"]})])
+            cg, _ = run_cdrive([sc["script"]])
+            ev = []
+            for n, c in zip(nat[0], cg[0]):
+                if c.startswith('{"k":"cdied"'):
+                    ev.append(json.dumps({"k": "cdied", "op": "?"}))
+                    break
+                if '"op":"pkt"' not in n:
+                    ev.append('{"k":"pair","c":%s,"native":%s}' % (c, n))
+            p = os.path.join(run.wd, "replay.ndjson")
+            open(p, "w").write("\n".join(ev) + "\n")
+            b, _ = vlib.validate(p, "Trace_CAbi", "Trace_CAbi_C15.cfg", run.wd, len(ev), {"VIOLATION-C15"})
+            bad = bool(b)
+            for ln, (t, why) in b.items():
+                print("  event %d: %s" % (ln, why))
+    elif sc.get("do") == "hist":
+        events, owner, p = history_events(run, [json.dumps(sc)], "replay")
+        b, _ = vlib.validate(p, "Trace_History", "Trace_History.cfg", run.wd, len(events), {"VIOLATION-HIST"}, shards=1)
+        mine = {ln: why for ln, (t, why) in b.items() if pid in classify(str(why))}
+        bad = bool(mine)
+        for ln, why in mine.items():
+            print("  step %d: %s" % (ln, why))
+    elif sc.get("do") == "purity":
+        # baseline: every distinct call alone in a fresh driver process, then the stored history
+        obs = []
+        seen = set()
+        for c in sc.get("calls", []):
+            if c["x"] in seen:
+                continue
+            seen.add(c["x"])
+            o1, _ = vlib.drive([json.dumps({"do": "purity", "threads": 1, "calls": [c]})], run.wd, "replay_base")
+            obs += o1
+        o2, _ = vlib.drive([json.dumps(sc)], run.wd, "replay_hist")
+        obs += o2
+        p = os.path.join(run.wd, "replay.ndjson")
+        open(p, "w").write("\n".join(obs) + "\n")
+        b, _ = vlib.validate_seq(p, "Purity", "Trace_Purity.cfg", run.wd, len(obs), "VIOLATION-C17")
+        bad = bool(b)
+        for ln, (t, why) in b.items():
+            print("  %s" % why)
+    elif sc.get("do") in REPLAY_SPECS:
+        mod, cfg = REPLAY_SPECS[sc["do"]]
+        obs, p = vlib.drive([json.dumps(sc)], run.wd, "replay")
+        obs = [o for o in obs if not o.startswith('{"k":"skip"')]
+        open(p, "w").write("\n".join(obs) + "\n")
+        cfgname = cfg % ("C03" if pid == "C03" else pid)
+        b, _ = vlib.validate(p, mod, cfgname, run.wd, len(obs), {"VIOLATION-" + pid}, shards=1)
+        bad = bool(b)
+        for ln, (t, why) in b.items():
+            print("  %s" % why)
+    else:
+        print("this replay file holds no executable scenario")
+        return 2
+    if bad:
+        print("VIOLATION property=%s replay=%s" % (pid, path))
+        return 1
+    print("the scenario no longer violates %s" % pid)
+    import shutil
+    shutil.rmtree(run.wd, ignore_errors=True)
     return 0
